@@ -517,6 +517,8 @@ pub fn preludes() -> Vec<Vec<HOp>> {
 pub struct Planned {
     pub driver: HistDriver,
     pub mode: Mode,
+    /// spurious weak-CAS failures allowed per execution (deviation budget)
+    pub spurious: usize,
 }
 
 /// Driver set of DESIGN.md section 6 (C02: D1–D6, C03: D2–D5 with >=3 collections + D7).
@@ -561,9 +563,13 @@ pub fn driver_set(prop: Prop, thorough: bool) -> Vec<Planned> {
     let mut out = vec![];
     for (label, path, programs, mode) in shapes {
         for (pi, pre) in preludes().into_iter().enumerate() {
+            // quick tier: the deviation only for the small unbounded drivers
+            let calls: usize = programs.iter().map(|p| p.len()).sum();
+            let spurious = if thorough || (mode == Mode::U && calls <= 4) { 1 } else { 0 };
             out.push(Planned {
                 driver: HistDriver { label: format!("{} s{}", label, pi), path, prop, prelude: pre, programs: programs.clone(), audit: true },
                 mode,
+                spurious,
             });
         }
     }
@@ -578,12 +584,13 @@ pub fn run_set(plan: Vec<Planned>, cap: u64, fallback_bound: usize) -> Vec<(Stri
         let copy = clone_driver(&p.driver);
         let t0 = std::time::Instant::now();
         let mut used = p.mode;
+        SPURIOUS_BUDGET.store(p.spurious, std::sync::atomic::Ordering::Relaxed);
         let mut r = explore(p.driver, p.mode, cap, 16);
         if r.cap_hit && p.mode == Mode::U && r.violations.is_empty() {
             used = Mode::B(fallback_bound);
             r = explore(copy, used, cap * 4, 16);
         }
-        eprintln!("  {:<28} {:?}: {} executions (+{} sleep-blocked), {} outcomes, {} violations, cap_hit={} {:.1}s", name.split(" [").next().unwrap_or(""), used, r.executions, r.sleep_blocked, r.outcomes.len(), r.violations.len(), r.cap_hit, t0.elapsed().as_secs_f64());
+        eprintln!("  {:<28} {:?} dev<={}: {} executions (+{} sleep-blocked), {} outcomes, {} violations, cap_hit={} {:.1}s", name.split(" [").next().unwrap_or(""), used, SPURIOUS_BUDGET.load(std::sync::atomic::Ordering::Relaxed), r.executions, r.sleep_blocked, r.outcomes.len(), r.violations.len(), r.cap_hit, t0.elapsed().as_secs_f64());
         out.push((name, used, r));
     }
     out
